@@ -13,7 +13,8 @@ import fuzzylite as fl
 PID = "C20"
 MODULES = ["FlVerif.Props.C20"]
 NAMESPACE = "C20"
-TIE_A = ["code:fuzzylite.library.Settings.context"]
+TIE_A = ["code:fuzzylite.library.Settings.context", "code:fuzzylite.library.Settings.__init__",
+         "code:fuzzylite.library.Settings.factory_manager.fget", "code:fuzzylite.library.Settings.factory_manager.fset"]
 RULE = ("programs of nested `with fl.settings.context(...)` blocks (depth <= 4) over subsets of the 7 settings (None "
         "arguments included), with direct assignments inside and outside contexts, probes of vars(fl.settings) / Op.str / "
         "Op.is_close at every level and `raise` at any point; executed on the real settings singleton and by the Lean "
